@@ -233,6 +233,8 @@ class Normalizer:
         for f in list(repo.funcs.values()):
             self._replace_node(f, self.fold_new_constants(f))
         for f in list(repo.funcs.values()):
+            self._replace_node(f, self.project_tables(f))
+        for f in list(repo.funcs.values()):
             self._replace_node(f, self.canonical_syntax(f))
         for f in list(repo.funcs.values()):
             self._replace_node(f, self.bool_updates(f))
@@ -2099,6 +2101,120 @@ class Normalizer:
         if not hit[0]:
             return None
         ast.fix_missing_locations(new)
+        return new
+
+    # ------------------------------------------------------------------------------------------ N30
+    def project_tables(self, f: Func) -> t.Optional[FuncNode]:
+        """A new module constant  T = {k1: (a1, b1, ..), k2: (a2, b2, ..)}  (constant keys, tuple displays of one arity,
+        never mutated) is the parallel tables of its columns.  Uses are rewritten to the column they read:
+            T[K][i]                 ->  {k1: a1, k2: a2}[K]                 (i a constant index or constant slice)
+            T.get(K, (d0, d1))[i]   ->  {k1: a1, k2: a2}.get(K, d0)
+            next((n for n, c in T.items() if c[i] == E), D)   ->  {a1: k1, a2: k2}.get(E, D)   (column i: distinct
+                                                                                                  constants; also c[j] as result)
+        which is how the reference tree spells such look-ups (one literal table per use)."""
+        fn = f.node
+        repo = self.repo
+        hit = [False]
+        locals_ = stored_names(fn) | {a.arg for a in _params(fn)}
+
+        def table(e: ast.expr) -> t.Optional[t.Tuple[t.List[ast.expr], t.List[t.List[ast.expr]]]]:
+            if not isinstance(e, ast.Name) or e.id in locals_:
+                return None
+            r = repo.resolve_name(e.id, f.mod)
+            if not (isinstance(r, tuple) and r[0] == "const" and len(r) == 3) or e.id in self.inv_consts.get(r[1].name, set()):
+                return None
+            from .load import mutated_global
+
+            if mutated_global(r[1], e.id):
+                return None
+            d = r[2]
+            if not isinstance(d, ast.Dict) or not d.keys or not all(isinstance(k, ast.Constant) for k in d.keys):
+                return None
+            if not all(isinstance(v, ast.Tuple) and not any(isinstance(x, ast.Starred) for x in v.elts) for v in d.values):
+                return None
+            if len({len(t.cast(ast.Tuple, v).elts) for v in d.values}) != 1:
+                return None
+            return [t.cast(ast.expr, k) for k in d.keys], [list(t.cast(ast.Tuple, v).elts) for v in d.values]
+
+        def column(rows: t.List[t.List[ast.expr]], idx: ast.expr) -> t.Optional[t.List[ast.expr]]:
+            n = len(rows[0])
+            if isinstance(idx, ast.Constant) and isinstance(idx.value, int) and not isinstance(idx.value, bool) and -n <= idx.value < n:
+                return [copy.deepcopy(r_[idx.value]) for r_ in rows]
+            if isinstance(idx, ast.Slice) and all(x is None or (isinstance(x, ast.Constant) and isinstance(x.value, int)) for x in (idx.lower, idx.upper, idx.step)):
+                sl = slice(*[(x.value if x is not None else None) for x in (idx.lower, idx.upper, idx.step)])  # type: ignore[union-attr]
+                return [ast.Tuple(elts=[copy.deepcopy(x) for x in r_[sl]], ctx=ast.Load()) for r_ in rows]
+            return None
+
+        def display(keys: t.List[ast.expr], vals: t.List[ast.expr]) -> ast.Dict:
+            return ast.Dict(keys=[copy.deepcopy(k) for k in keys], values=vals)
+
+        class P(ast.NodeTransformer):
+            def visit_Subscript(self, node: ast.Subscript) -> ast.AST:
+                self.generic_visit(node)
+                if not isinstance(node.ctx, ast.Load):
+                    return node
+                inner = node.value
+                # T[K][i]
+                if isinstance(inner, ast.Subscript):
+                    tb = table(inner.value)
+                    col = column(tb[1], node.slice) if tb else None
+                    if tb and col is not None:
+                        hit[0] = True
+                        return ast.copy_location(ast.Subscript(value=display(tb[0], col), slice=inner.slice, ctx=ast.Load()), node)
+                # T.get(K, (d0, ..))[i]
+                if isinstance(inner, ast.Call) and isinstance(inner.func, ast.Attribute) and inner.func.attr == "get" and len(inner.args) == 2 and not inner.keywords and isinstance(inner.args[1], ast.Tuple):
+                    tb = table(inner.func.value)
+                    col = column(tb[1], node.slice) if tb else None
+                    dflt = column([list(inner.args[1].elts)], node.slice) if isinstance(node.slice, ast.Constant) and isinstance(node.slice.value, int) and -len(inner.args[1].elts) <= node.slice.value < len(inner.args[1].elts) else None
+                    if tb and col is not None and dflt is not None:
+                        hit[0] = True
+                        return ast.copy_location(ast.Call(func=ast.Attribute(value=display(tb[0], col), attr="get", ctx=ast.Load()), args=[inner.args[0], dflt[0]], keywords=[]), node)
+                return node
+
+            def visit_Call(self, node: ast.Call) -> ast.AST:
+                self.generic_visit(node)
+                # next((n for n, c in T.items() if c[i] == E), D)
+                if not (isinstance(node.func, ast.Name) and node.func.id == "next" and node.func.id not in locals_ and len(node.args) == 2 and not node.keywords and isinstance(node.args[0], ast.GeneratorExp)):
+                    return node
+                g = node.args[0]
+                if len(g.generators) != 1 or g.generators[0].is_async or len(g.generators[0].ifs) != 1:
+                    return node
+                gen = g.generators[0]
+                it = gen.iter
+                if not (isinstance(it, ast.Call) and isinstance(it.func, ast.Attribute) and it.func.attr == "items" and not it.args and not it.keywords):
+                    return node
+                tb = table(it.func.value)
+                if tb is None or not (isinstance(gen.target, ast.Tuple) and len(gen.target.elts) == 2 and all(isinstance(x, ast.Name) for x in gen.target.elts)):
+                    return node
+                kn, vn = (t.cast(ast.Name, x).id for x in gen.target.elts)
+                cond = gen.ifs[0]
+                if not (isinstance(cond, ast.Compare) and len(cond.ops) == 1 and isinstance(cond.ops[0], ast.Eq)):
+                    return node
+                sides = [cond.left, cond.comparators[0]]
+                pick = [s_ for s_ in sides if isinstance(s_, ast.Subscript) and isinstance(s_.value, ast.Name) and s_.value.id == vn]
+                other = [s_ for s_ in sides if s_ not in pick]
+                if len(pick) != 1 or len(other) != 1 or any(isinstance(x, ast.Name) and x.id in (kn, vn) for x in ast.walk(other[0])) or not _is_pure(other[0]):
+                    return node
+                col = column(tb[1], pick[0].slice)
+                if col is None or not all(isinstance(c_, ast.Constant) and isinstance(c_.value, (bytes, int, str)) for c_ in col) or len({(type(t.cast(ast.Constant, c_).value), t.cast(ast.Constant, c_).value) for c_ in col}) != len(col):
+                    return node
+                if isinstance(g.elt, ast.Name) and g.elt.id == kn:
+                    res: t.Optional[t.List[ast.expr]] = [copy.deepcopy(k) for k in tb[0]]
+                elif isinstance(g.elt, ast.Subscript) and isinstance(g.elt.value, ast.Name) and g.elt.value.id == vn:
+                    res = column(tb[1], g.elt.slice)
+                else:
+                    res = None
+                if res is None:
+                    return node
+                hit[0] = True
+                return ast.copy_location(ast.Call(func=ast.Attribute(value=ast.Dict(keys=col, values=res), attr="get", ctx=ast.Load()), args=[other[0], node.args[1]], keywords=[]), node)
+
+        new = copy.deepcopy(fn)
+        P().visit(new)
+        if not hit[0]:
+            return None
+        ast.fix_missing_locations(new)
+        self.log.setdefault("inlined", []).append(f"{f.qual}: column look-ups of a tuple-valued table constant written as literal tables")
         return new
 
     # ------------------------------------------------------------------------------------------ N26
